@@ -159,39 +159,15 @@ func c11Check(env *h.Env, c *c11Case) error {
 		}
 		return false
 	}
-	// expected view tree from the model restricted to reported paths, link groups re-rooted
-	idx := c.Tree.Index()
-	groupOf := func(n *h.Node) string {
-		if n.LinkTo != "" {
-			return n.LinkTo
-		}
-		return n.Path
-	}
-	firstRep := map[string]string{}
-	want := &h.Tree{}
-	hiddenFirst := false
+	var repList []string
 	for _, w := range reported {
-		n, ok := idx[w.Path]
-		if !ok {
-			return fmt.Errorf("walk reports %q which does not exist in the source", w.Path)
-		}
-		nn := *n
-		if n.Kind != h.KDir && n.Kind != h.KSymlink {
-			g := groupOf(n)
-			if f, ok := firstRep[g]; ok {
-				nn.LinkTo = f
-			} else {
-				firstRep[g] = n.Path
-				if n.LinkTo != "" {
-					hiddenFirst = true
-					src := idx[n.LinkTo]
-					nn.LinkTo = ""
-					nn.Seed, nn.Size = src.Seed, src.Size
-				}
-			}
-		}
-		want.Nodes = append(want.Nodes, nn)
+		repList = append(repList, w.Path)
 	}
+	want, hiddenFirst, verr := restrictTree(c.Tree, repList)
+	if verr != nil {
+		return verr
+	}
+	idx := c.Tree.Index()
 	if hiddenFirst {
 		env.Class("first-member-hidden")
 		env.NonTrivial()
@@ -312,4 +288,43 @@ func c11Check(env *h.Env, c *c11Case) error {
 
 func TestC11(t *testing.T) {
 	h.Run(t, "C11", genC11, c11Check)
+}
+
+// restrictTree is the tree a self-contained view of `reported` paths must
+// look like: the model restricted to those paths, hard-link groups re-rooted at
+// their first reported member (which becomes a full file).
+func restrictTree(tree *h.Tree, reported []string) (*h.Tree, bool, error) {
+	idx := tree.Index()
+	groupOf := func(n *h.Node) string {
+		if n.LinkTo != "" {
+			return n.LinkTo
+		}
+		return n.Path
+	}
+	firstRep := map[string]string{}
+	want := &h.Tree{}
+	hiddenFirst := false
+	for _, p := range reported {
+		n, ok := idx[p]
+		if !ok {
+			return nil, false, fmt.Errorf("walk reports %q which does not exist in the source", p)
+		}
+		nn := *n
+		if n.Kind != h.KDir && n.Kind != h.KSymlink {
+			g := groupOf(n)
+			if f, ok := firstRep[g]; ok {
+				nn.LinkTo = f
+			} else {
+				firstRep[g] = n.Path
+				if n.LinkTo != "" {
+					hiddenFirst = true
+					src := idx[n.LinkTo]
+					nn.LinkTo = ""
+					nn.Seed, nn.Size = src.Seed, src.Size
+				}
+			}
+		}
+		want.Nodes = append(want.Nodes, nn)
+	}
+	return want, hiddenFirst, nil
 }
